@@ -118,6 +118,15 @@ impl View2 {
         }
     }
 
+    /// Re-anchors a translation handle after the view's scale has changed
+    ///
+    /// The handle keeps the model-space point that was grabbed, but forgets
+    /// the matrix that was current when the drag began.
+    pub fn rebase_translate(&self, h: &mut TranslateHandle<2>) {
+        h.initial_mat = self.world_to_model();
+        h.initial_center = self.center;
+    }
+
     /// Applies a translation (in world units) to the current camera position
     pub fn translate(
         &mut self,
@@ -248,6 +257,15 @@ impl View3 {
     /// Returns the translation matrix for this view
     fn translation_mat(&self) -> Matrix4<f32> {
         Matrix4::new_translation(&self.center)
+    }
+
+    /// Re-anchors a translation handle after the view's scale has changed
+    ///
+    /// The handle keeps the model-space point that was grabbed, but forgets
+    /// the matrix that was current when the drag began.
+    pub fn rebase_translate(&self, h: &mut TranslateHandle<3>) {
+        h.initial_mat = self.world_to_model();
+        h.initial_center = self.center;
     }
 
     /// Applies a translation (in world units) to the current camera position
@@ -514,7 +532,12 @@ impl Canvas2 {
         pos_screen: Option<Point2<i32>>,
     ) -> bool {
         let pos_world = pos_screen.map(|p| self.image_size.transform_point(p));
-        self.view.zoom((amount / 100.0).exp2(), pos_world)
+        let changed = self.view.zoom((amount / 100.0).exp2(), pos_world);
+        if let Some(h) = &mut self.drag_start {
+            // an in-progress pan must continue with the new scale
+            self.view.rebase_translate(h);
+        }
+        changed
     }
 }
 
@@ -646,6 +669,11 @@ impl Canvas3 {
         pos_screen: Option<Point2<i32>>,
     ) -> bool {
         let pos_world = pos_screen.map(|p| self.screen_to_world(p));
-        self.view.zoom((amount / 100.0).exp2(), pos_world)
+        let changed = self.view.zoom((amount / 100.0).exp2(), pos_world);
+        if let Some(Drag3::Pan(h)) = &mut self.drag_start {
+            // an in-progress pan must continue with the new scale
+            self.view.rebase_translate(h);
+        }
+        changed
     }
 }
